@@ -23,7 +23,10 @@ CONSTANTS
     Signers,          \* who may sign an attachment besides the right key
     RenewKinds,       \* {"renew", "refresh", "refreshpartial"} or a subset
     MaxExchanges,     \* Leg R export: exchanges started per path
-    Dur               \* remaining duration (blocks) of the formed contract
+    Dur,              \* remaining duration (blocks) of the formed contract
+    TipChoices        \* Leg R export: chain tip heights a path is set up at, as (tip - proof height + 2)
+                      \* (0: two blocks early, 1: the last block a revision can be made in, 2: exactly the proof
+                      \* height, 3: past it, 147: past the expiration); a cfg cannot hold negative numbers
 
 VARIABLES phase,      \* "setup" | "run"
           left        \* Leg R export: exchanges that may still be started
@@ -45,6 +48,7 @@ Start(n) ==
     /\ att = [a \in Accounts |-> <<>>]
     /\ lock = 0
     /\ olds = <<>>
+    /\ tipd = -2
     /\ sess = [s \in Sessions |-> IdleS]
     /\ act = [op |-> "Init"]
     /\ reply = NoneR
@@ -67,7 +71,7 @@ Ledgers ==
                       Led(0, c - 1, 5, <<"p2", "p1">>), Led(0, c, 0, <<>>), Led(1, c, 7, <<"p2", "p1">>)} : c \in Costs}
     ELSE {Led(0, 0, 0, <<>>)}
 
-Setup(n, L) ==
+Setup(n, L, t) ==
     /\ phase = "setup"
     /\ phase' = "run"
     /\ rev' = Formed(n)
@@ -79,9 +83,10 @@ Setup(n, L) ==
             /\ pool' = [pool EXCEPT !["p1"] = L.q1, !["p2"] = L.q2]
             /\ pex' = {p \in Pools : pool'[p] > 0} \cup Range(L.at)
             /\ att' = [att EXCEPT !["a1"] = L.at]
-    /\ act' = [op |-> "Setup", n |-> n]
+    /\ act' = [op |-> "Setup", n |-> n, t |-> t]
     /\ reply' = NoneR
     /\ calls' = <<>>
+    /\ tipd' = t
     /\ UNCHANGED <<stored, lock, olds, sess, left>>
 
 -----------------------------------------------------------------------------
@@ -188,8 +193,21 @@ SmallBegin(s) ==
     \/ BeginLatest(s)
     \/ BeginRepl(s, "accts", <<CHOOSE a \in Accounts : TRUE>>, 2, "ok", "ok")
 
+\* Leg R near the deadline (tip at proof height - 1, exactly at it, past it, past the expiration): one honest
+\* request of every kind
+HonestBegin(s) ==
+    \/ BeginFund(s, <<[a |-> AnyAcc, n |-> 1]>>, "ok", "ok")
+    \/ BeginRepl(s, "accts", <<AnyAcc>>, 2, "ok", "ok")
+    \/ BeginRepl(s, "pools", <<AnyPool>>, 2, "ok", "ok")
+    \/ BeginFree(s, <<0>>, "ok", "ok")
+    \/ BeginAppend(s, <<1>>, "ok", "ok")
+    \/ BeginRoots(s, 0, 1, "ok", "ok")
+    \/ BeginLatest(s)
+    \/ \E kind \in RenewKinds : BeginRenew(s, kind, "ok", "ok", "ok", Allowance, Collateral)
+
 FamilyBegin(s) ==
-    CASE Family = "roots" -> RootsBegin(s)
+    CASE Edges /\ tipd > -2 -> HonestBegin(s)
+      [] Family = "roots" -> RootsBegin(s)
       [] Family = "accounts" -> AccountsBegin(s)
       [] Family = "revisions" -> RevisionsBegin(s)
       [] OTHER -> FALSE
@@ -208,7 +226,11 @@ StartOK(s) == ~Edges \/ (left > 0 /\ (s = First <=> left = MaxExchanges))
 BeginOf(s) == IF Edges /\ s # First THEN SmallBegin(s) ELSE (Truncated(s) \/ FamilyBegin(s))
 
 MCNext ==
-    \/ (\E n \in InitSizes, L \in Ledgers : Setup(n, L))
+    \/ (\E n \in InitSizes, L \in Ledgers, t \in {x - 2 : x \in TipChoices} : Setup(n, L, t))
+    \* model checking: time passes between exchanges, from "early" to exactly the proof height to past it
+    \/ /\ phase = "run" /\ ~Edges /\ Family = "revisions"
+       /\ (IF tipd < 0 THEN Mine(-tipd) ELSE tipd < 1 /\ Mine(1))
+       /\ UNCHANGED <<phase, left>>
     \/ /\ phase = "run"
        /\ UNCHANGED phase
        /\ \E s \in Sessions :
@@ -226,14 +248,14 @@ Commits == IF olds = <<>> THEN rev.num ELSE olds[1].rev.num + 1 + rev.num
 Bound == Commits <= MaxNum /\ Len(olds) <= 1
 
 \* Leg R export: every explored transition as one JSON line (ACTION_CONSTRAINT)
-Proj(r, rt, st, ac, po, px, at, lk, rn, se, ph, lf) ==
-    [rev |-> r, roots |-> rt, stored |-> st, acct |-> ac, pool |-> po, pex |-> px, att |-> at,
+Proj(r, rt, st, ac, po, px, at, lk, rn, se, ph, lf, td) ==
+    [tipd |-> td, rev |-> r, roots |-> rt, stored |-> st, acct |-> ac, pool |-> po, pex |-> px, att |-> at,
      lock |-> lk, olds |-> rn, sess |-> se, phase |-> ph, left |-> lf]
 EmitEdge ==
     PrintT("EDGE " \o ToJson([
-        from |-> Proj(rev, roots, stored, acct, pool, pex, att, lock, olds, sess, phase, left),
+        from |-> Proj(rev, roots, stored, acct, pool, pex, att, lock, olds, sess, phase, left, tipd),
         act |-> act', reply |-> reply', calls |-> calls',
-        to |-> Proj(rev', roots', stored', acct', pool', pex', att', lock', olds', sess', phase', left')]))
+        to |-> Proj(rev', roots', stored', acct', pool', pex', att', lock', olds', sess', phase', left', tipd')]))
 
 \* the list-model lemma as a (state-independent) invariant, for its own cfg
 ListModelLemma == ListModelUpTo(MaxIdxLen)
